@@ -13,6 +13,7 @@ pub mod c10;
 pub mod c11;
 pub mod c16;
 pub mod c17;
+pub mod c18;
 pub mod registry;
 pub mod c12;
 pub mod c13;
@@ -43,6 +44,7 @@ pub fn build(id: &str, tier: &str) -> Option<Check> {
         "C15" => c15::build(quick),
         "C16" => c16::build(quick),
         "C17" => c17::build(quick),
+        "C18" => c18::build(quick),
         "C19" => c19::build(quick),
         "C20" => c20::build(quick),
         _ => return None,
